@@ -179,8 +179,9 @@ def rewrite_query(q, fe):
     return rq(q)
 
 
-def rewrite_blocks(q, fb):
-    """apply the SELECT-block rewriter fb bottom-up to every (select ..) node of query q"""
+def rewrite_blocks(q, fb, flat=None):
+    """apply the SELECT-block rewriter fb bottom-up to every (select ..) node of query q;
+    flat (optional) rewrites the subquery of every LATERAL item"""
     def rq(q):
         h = q[0]
         if h == "table":
@@ -204,12 +205,28 @@ def rewrite_blocks(q, fb):
         if h == "join":
             return [h, f[1], rf(f[2]), rf(f[3]), opt(f[4], re), f[5], f[6]]
         if h == "lateral":
-            return [h, f[1], rf(f[2]), rq(f[3]), opt(f[4], re), f[5]]
+            sub = rq(f[3])
+            if flat:
+                sub = flat(sub)
+            return [h, f[1], rf(f[2]), sub, opt(f[4], re), f[5]]
         raise ValueError(show(f))
 
     def re(e):
         return map_children(e, re, rq)
     return rq(q)
+
+
+def lateral_agg_empty(sub):
+    """engine: a correlated LATERAL subquery that is a global aggregate is flattened into a grouped aggregate
+    joined back with an inner join, so a left row whose subquery input is empty gets NO row instead of the
+    aggregate's empty-input row (count 0, others NULL).  = the subquery HAVING count(*) > 0"""
+    if sub[0] == "select" and sub[3] != "-" and sub[3][0] == [] and query_correlated(sub):
+        f, wh, grp, hav, sel, dis = sub[1:]
+        n = len(grp[1])
+        g = [[], grp[1] + [["countstar", "0", ["const", "N"]]]]
+        cnt = ["cmp", "gt", ["col", "0", str(n)], ["const", ["i", "0"]]]
+        return ["select", f, wh, g, cnt if hav == "-" else ["and", hav, cnt], sel, dis]
+    return sub
 
 
 def gs_empty(b):
@@ -473,11 +490,14 @@ KNOWN_REWRITES = {
     "distributive-or-absorption": dor_absorb_folded,
     "distributive-or-absorption~nullcmp": dor_absorb_folded_nullcmp,
     "grouping-sets-empty-input-no-grand-total": ("block", gs_empty),
+    "lateral-global-aggregate-empty-input-no-row": ("lateral", lateral_agg_empty),
 }
 
 
 def apply_rewrite(q, fe):
     if isinstance(fe, tuple):
+        if fe[0] == "lateral":
+            return rewrite_blocks(q, lambda b: b, flat=fe[1])
         return rewrite_blocks(q, fe[1])
     return rewrite_query(q, fe)
 
